@@ -6,7 +6,7 @@ import ast
 import re
 
 from ..cfg import cfg_of
-from ..core import seq, AnalysisError, call_name, const_value, dotted, unparse, walk_no_nested
+from ..core import named_args, seq, AnalysisError, call_name, const_value, dotted, unparse, walk_no_nested
 from ..pattern import body_is, find, has
 from ..report import Ctx
 
@@ -36,7 +36,7 @@ def run(ctx: Ctx) -> None:
     ok = len(mk) == 1 and len(rep) == 1 and isinstance(mk[0].targets[0], ast.Tuple)
     if ok:
         fd, tmp = (unparse(x) for x in mk[0].targets[0].elts)
-        kw = {k.arg: unparse(k.value) for k in mk[0].value.keywords}
+        kw = named_args(mk[0].value)
         same_dir = 'dir' in kw and 'os.path.dirname' in kw['dir']
         w = [c for c in opens if dotted(c.func) == 'os.fdopen' and unparse(c.args[0]) == fd]
         dst = unparse(rep[0].args[1])
